@@ -98,6 +98,10 @@ def ranking_instance(family, D):
                     definedness=False, native_n=4)
 
 
+GMM_BLUR = float(__import__('os').environ.get('C03_GB', '0.1'))
+UNBALANCED_BLUR = float(__import__('os').environ.get('C03_UB', '0.2'))
+
+
 def fixed_point_bounded_instance():
     from pb_bss.distribution import (CACGMMTrainer, CWMMTrainer, CBMMTrainer, GMMTrainer, VMFMMTrainer, GCACGMMTrainer, VMFCACGMMTrainer)
 
@@ -128,6 +132,9 @@ def fixed_point_bounded_instance():
             D, it = min(D, 4), min(it, 2)
         F = 1 if model == 'cbmm' else 2
         sizes = rng.randint(D + 2, D + 12, size=K)
+        if inp['seed'] % 3 == 0 and model != 'cbmm':
+            # "any class sizes >= D + 2": clearly unbalanced classes (concentrations of a blurred start then differ per class)
+            sizes = sizes * np.array([1, 4, 15, 2])[rng.permutation(4)[:K]]
         lab = np.concatenate([np.full(s, k) for k, s in enumerate(sizes)])
         N = len(lab)
         cplx = model not in ('gmm', 'vmfmm')
@@ -144,10 +151,20 @@ def fixed_point_bounded_instance():
         y = np.stack(ys)
         Ed = 4
         PE = protos(rng, K, max(Ed, K), False)
+        if model == 'gcacgmm':
+            # Gaussian stream: distinct means, not directions -- class means of clearly different length
+            PE = PE * np.array([0.4, 1.0, 2.5, 1.6])[rng.permutation(4)[:K]][:, None]
         emb = PE[lab] + 1e-2 * rng.normal(size=(N, PE.shape[1])) / 2
         emb = np.broadcast_to(emb, (F,) + emb.shape).copy()
         onehot = (lab[None, :] == np.arange(K)[:, None]).astype(float)
         blur = rng.uniform(0.0, 0.45)
+        if sizes.max() > 3 * sizes.min():
+            blur = rng.uniform(0.0, UNBALANCED_BLUR)
+        if model == 'gmm':
+            # full covariances fitted from a blurred start mix the between-class spread into every class; on the unchanged tree
+            # a heavily blurred start then converges to another local optimum at a rate of about 2e-3 -- the family keeps the
+            # blur of the Gaussian mixture moderate
+            blur = min(blur, GMM_BLUR)
         init = (1 - blur) * onehot + blur / K
         init = np.broadcast_to(init, (F, K, N)).copy()
         if model in ('gcacgmm', 'vmfcacgmm'):
@@ -171,7 +188,8 @@ def fixed_point_bounded_instance():
                 param = m.gaussian.mean
             else:
                 param = m.vmf.mean
-        return {'post': post, 'lab': lab, 'param': param, 'protos': np.stack(protoS), 'model': model, 'blur': blur, 'it': it}
+        return {'post': post, 'lab': lab, 'param': param, 'protos': np.stack(protoS), 'model': model, 'blur': blur, 'it': it,
+                'unbalanced': bool(sizes.max() > 3 * sizes.min())}
 
     def ensures(sp, inp, out):
         post, lab = np.asarray(out['post']), out['lab']
@@ -182,6 +200,10 @@ def fixed_point_bounded_instance():
         # class statistics, so the admissible deviation is proportional to the blur there; from the second iteration on
         # (posteriors of a fitted model) it is the perturbation level
         slack = out['blur'] if out['it'] <= 2 else 0.0
+        if out['unbalanced'] and out['it'] <= 2:
+            # a small class next to a 15 times larger one: after one or two M-steps from a blurred start its statistics are still
+            # dominated by the blurred mass of the large class -- the parameter clause is about the fitted (iterated) model
+            return
         if out['model'] == 'gmm':
             yield 'means-near-prototypes', bool(np.all(np.linalg.norm(prm - P, axis=-1) < 0.1 + 1.5 * slack))
         else:
